@@ -46,6 +46,10 @@ def check(ctx):
     _r7(ctx)
     from .c18 import render_reads_only
     render_reads_only(ctx, package(ctx.tree), "R8")
+    # the command-line producer of the configuration keeps each modifier apart and whole (shared with C20.R4/R6/R7): separators agree,
+    # the free-text expression is not cut, every ODE-modifier entry owns fresh lists
+    from .c20 import _r4_r6_r7 as option_rules
+    ctx.absorb(lambda sub: option_rules(sub, package(sub.tree)), "R9", only=lambda o: "modifier" in o.key and o.outcome != "MISSING")
 
 
 # ------------------------------------------------------------------ R6  command line: every term is accumulated
